@@ -232,6 +232,14 @@ func Run(s *simrt.Sim, a *harness.Args, r *harness.Result) {
 	w.fs.Torn = knob(a, "crash_torn", 0) == 1
 	w.fs.TailKeep = knob(a, "crash_tail", 0)
 	crash2 := knob(a, "crash2_at", 0)
+	if knob(a, "rand_crash", 0) == 1 && s.T.Choose("crash", 2) == 1 {
+		// one crash at a drawn operation (a point past the last operation
+		// simply never fires)
+		w.fs.CrashAt = 1 + s.T.Choose("crash", 70)
+		w.fs.Model = simfs.CrashModel(s.T.Choose("crash", 2))
+		w.fs.Torn = s.T.Choose("crash", 2) == 1
+		w.fs.TailKeep = s.T.Choose("crash", 3)
+	}
 	w.fs.OnCrash = func(op string) {
 		w.crashOps = append(w.crashOps, op)
 		w.crashes++
